@@ -19,32 +19,56 @@ def P(rules, technique, explanation, not_decided):
 
 
 _ALL = {
-    'C01': P(['K1', 'K2', 'K3', 'K4', 'K5', 'F1', 'F2', 'L7'],
-             'codec table agreement per storage mode + SQL column binding dataflow',
-             'Decides the structural necessary conditions of the round trip: every mode written by Disk.store is '
-             'dispatched by Disk.fetch and returns on all paths (K1); writer and reader recipes agree per mode - '
-             'inline/file discriminator, open mode, codec, newline handling, strict errors, read to EOF (K2); floats '
-             'stored natively exclude NaN (K3); JSONDisk wraps both directions symmetrically (K4); every fetch '
-             'receives mode/filename/value of one SELECT and every store result reaches the row writer in column '
-             'order (K5); value files are created exclusively and written completely (F1, F2); only core touches '
-             'storage (L7).',
-             'Equality over the value domain itself (pickle/SQLite/JSON fidelity, size-threshold arithmetic) '
-             'quantifies over runtime values and is not decided.'),
+    'C01': P(['K1', 'K2', 'K3', 'K4', 'K5', 'F1', 'F2', 'F7', 'L7'],
+             'codec table agreement per storage mode + SQL column binding dataflow over enumerated paths',
+             'Decides structural necessary conditions of the round trip: every mode written by Disk.store is dispatched '
+             'by Disk.fetch and returns on all paths (K1); writer and reader recipes agree per mode - inline/file '
+             'discriminator, open mode, codec, newline handling, strict errors, read to EOF (K2); floats stored natively '
+             'exclude NaN (K3); key codec and JSONDisk wrap both directions symmetrically (K4); every fetch receives '
+             'mode/filename/value of one SELECT and every store result reaches the row writer in column order (K5); '
+             'value files are created exclusively and written completely (F1, F2, F7); only core touches storage (L7).',
+             'Equality over the value domain itself (pickle/SQLite/JSON fidelity, size-threshold arithmetic) quantifies '
+             'over runtime values and is not decided.'),
+    'C02': P(['K4', 'K5', 'K6', 'X3'],
+             'key codec table agreement + (key, raw) parameter binding dataflow + keyset pagination check',
+             'Decides that Disk.put/Disk.get invert each other per raw flag by exact type dispatch with the int64 guard '
+             '(K4); every key lookup filters on key = ? AND raw = ? fed by the two results of one Disk.put of the '
+             'method\'s key (K6); iteration decodes key and raw of one row (K5) and pages on the unique (key, raw) or '
+             'rowid cursor (X3).',
+             'SQLite comparison/affinity semantics for 1 vs 1.0 and pickle canonicity of equal composite keys are '
+             'runtime-value questions and are not decided.'),
+    'C03': P(['E2', 'L5', 'L8', 'X3', 'E4'],
+             'who-may-delete classification with guard dominance over enumerated paths',
+             'Decides the clause "nothing is ever removed except by an explicit removal call, by expiry, or by size '
+             'eviction at the limit": every DELETE on Cache is classified and its guard verified (E2); statistics are '
+             'counted exactly once per transactional get and the lock-free path is taken only when nothing must be '
+             'counted (L5, L8); bulk removal/iteration paging is sound and bulk removals report what they removed '
+             '(X3, E4).',
+             'Equivalence with a reference dictionary over all call histories needs execution and is not decided.'),
+    'C04': P(['X1', 'X2', 'X3', ('E2', r'expired|lazy|expire'), 'E3'],
+             'finite order abstraction {NULL,<,=,>} over every expiry comparison (SQL 3-valued + Python), sibling agreement',
+             'Decides that every comparison of an expiry time with the clock - in SQL or Python - implements one '
+             'liveness predicate (live iff NULL or > now) and every removal predicate selects only non-live items and '
+             'all items with expire_time < now (X1); ttl conversion is NULL iff expire is None else now+expire (X2); '
+             'expire() pages soundly through any population (X3); lazy removal is expiry-guarded and budgeted (E2, E3).',
+             'Clock trajectories x populations beyond the order abstraction (float rounding of now + expire) are not '
+             'decided.'),
     'C05': P(['T1', 'T2', 'T3', 'L1', 'L2', 'L5', 'L6', 'L7', 'F1', 'V1a', 'K5'],
              'lock-discipline analysis over enumerated paths with transaction context',
-             'Decides that the transaction manager takes the write lock at BEGIN, admits only the owner thread to '
-             'nest and commits xor rolls back on every path (T1-T3); every row write executes inside a transaction '
-             'block (L1); every read-modify-write has its SELECT in the same block instance as the write it drives '
-             '(L2); the lock-free get path is taken only when nothing has to be written (L5); connections are '
-             'thread-local and re-opened after fork (L6); value files are never overwritten in place (F1) and a '
-             'reader outside the lock treats a vanished file as a miss (V1a).',
+             'Decides that the transaction manager takes the write lock at BEGIN, admits only the owner thread to nest '
+             'and commits xor rolls back on every path (T1-T3); every row write executes inside a transaction block '
+             '(L1); every read-modify-write has its SELECT in the same block instance as the write it drives (L2); the '
+             'lock-free get path is taken only when nothing has to be written (L5); connections are thread-local and '
+             're-opened after fork (L6); value files are never overwritten in place (F1), a reader outside the lock '
+             'treats a vanished file as a miss (V1a) and one SELECT supplies mode+filename+value (K5).',
              'Linearizability itself (all interleavings under the real SQLite lock manager) is model-checking '
-             'territory and is assumed from A2 given the discipline above.'),
+             'territory; it is assumed from A2 given the discipline above.'),
     'C06': P(['T2', 'T3', 'T5b', 'T6', 'F5b'],
              'protocol check of the transaction manager over enumerated paths (begin flag correlated)',
              'Decides that only the outermost block commits/rolls back, only the owner thread joins, any exception '
-             'rolls back and propagates, the public wrappers yield inside the block; and that no file is removed '
-             'while an enclosing transaction can still roll back (T5b, F5b).',
+             'rolls back and propagates, the public wrappers (Cache/Fanout/Deque/Index.transact) yield inside the '
+             'block and lock every shard; and that no file is removed while an enclosing transaction can still roll '
+             'back (T5b, F5b - violated on the pinned tree, see known findings).',
              'Visibility to concurrent clients (WAL snapshot semantics) is assumed (A2).'),
     'C07': P(['T3', 'T5a', 'F2', 'F4', 'F5a', 'K5', 'P3'],
              'ordering (must-precede) rules over enumerated paths',
@@ -53,6 +77,107 @@ _ALL = {
              'transaction and never inside the block (T5a, F4, F5a), the manager never leaves a transaction open (T3), '
              'journal mode default is WAL with synchronous != OFF (P3).',
              'SIGKILL inside SQLite and page-cache behaviour are trusted (A2).'),
+    'C08': P(['F3', 'F4', 'F6', 'F7', 'F8', 'F9', 'F10'],
+             'typestate of the new value file over all exits (normal, Timeout, exception) + trigger table check',
+             'Decides that a freshly written value file is referenced by a committed row or released on every exit '
+             '(F3), every overwrite/delete releases the old file (F4), the rows whose files are released are exactly '
+             'the rows deleted (F6), recorded sizes are byte counts (F7), removal tolerates races (F8), a failed '
+             'write leaves no partial file (F9) and count/size are maintained by triggers for every row event and '
+             'assigned nowhere else (F10).',
+             'Counter values under real concurrency rely on SQLite trigger atomicity (A2).'),
+    'C09': P(['E1', 'E2', 'E3', 'E4', 'E5', 'E6', 'S5'],
+             'policy table coherence + guard dominance with order abstraction {<,=,>} on volume vs size_limit',
+             'Decides that each policy culls ascending by the column its get-update refreshes and its index covers, '
+             'policy none has no cull statement (E1); size eviction is dominated by volume >= size_limit in writes and '
+             'exactly volume > size_limit in cull() (E2); one write removes at most cull_limit rows, none when 0 (E3); '
+             'cull() and the bulk removals return everything they removed (E4); get/incr refresh recency in the same '
+             'block (E5); Deque/Index use policy none (E6); the limit is divided among shards (S5).',
+             'Which concrete items survive a given history needs execution and is not decided.'),
+    'C10': P(['Q1', 'Q2', ('L2', r'Cache\.(push|pull|peek)/'), ('F4', r'Cache\.(pull|peek)/'),
+              ('X1', r'Cache\.(pull|peek)/'), ('S6', r'persistent\.(Deque|Index)\.')],
+             'sibling agreement of push/pull/peek (constant-folded key ranges, order maps) + lock discipline',
+             'Decides that push, pull and peek build the same open key range, pin raw, map sides to orders '
+             'consistently, insert the neighbour key with the 15-digit text form inside the bounds (Q1); that a '
+             'prefixed range is shaped to prefix-<15 digits> only (Q2 - violated, known finding); that select and '
+             'insert/delete of the head share one transaction block (L2), the pulled file is released after commit '
+             '(F4), expired heads use the common liveness predicate (X1); Deque/Index delegate positionally right (S6).',
+             'Delivery order/exactly-once over interleavings follows from the block discipline only under A2.'),
+    'C11': P(['E6', ('L3', r'Deque\.'), ('R2', r'^Deque\.'), 'R3', ('P1', r'Deque'), ('S6', r'persistent\.Deque\.')],
+             'structural necessary conditions: policy none, append+trim in one retrying block, Timeout containment, state tuple',
+             'Does NOT decide equivalence with collections.deque. Decides: a Deque never evicts or expires (E6); '
+             'append/appendleft push, measure and trim the opposite side inside one retrying transaction, as does the '
+             'maxlen setter (L3); no Deque method lets Timeout escape (R2, R3); the pickled state (directory, maxlen) '
+             'matches the constructor (P1); delegation passes arguments in the right positions (S6).',
+             'Equivalence with collections.deque over operation sequences needs execution and is not decided.'),
+    'C12': P(['E6', ('L3', r'Index\.'), ('R2', r'^Index\.'), 'R3', ('P1', r'Index'), 'V1b',
+              ('S6', r'persistent\.Index\.')],
+             'structural necessary conditions + call-path check of the lookup (vanished value file)',
+             'Does NOT decide equivalence with OrderedDict. Decides: an Index never evicts or expires (E6); popitem '
+             'peeks and deletes in one retrying block and setdefault stores through the atomic add (L3); no Index '
+             'method lets Timeout escape (R2, R3); state matches the constructor (P1); the lookup path must not turn a '
+             'vanished (replaced) value file into "key absent" (V1b - violated, known finding).',
+             'Equivalence with OrderedDict over histories needs execution and is not decided.'),
+    'C13': P(['S1', 'S2', 'S3', 'S4', 'S5', 'S6', 'P3'],
+             'routing dataflow per method + purity allow-list of the hash + aggregate iteration shape',
+             'Decides that every key-addressed FanoutCache method calls shards[hash(key) % count] with the key it '
+             'hashed (S1); Disk.hash is a pure function of the database form of the key (S2) and respects database '
+             'equality (S3 - violated for 1 vs 1.0, known finding); aggregates visit every shard exactly once and '
+             'combine all results (S4); the limit is divided (S5); arguments are passed in the right positions (S6); '
+             'hash recipe and shard directory names equal the released format (P3).',
+             'Per-call equivalence with the unsharded cache over histories needs execution and is not decided.'),
+    'C14': P(['T4', ('F3', r'timeout-exit'), 'R1', 'R2', 'R3', 'R4', ('E4', r'timeout-carries-count')],
+             'may-raise-Timeout fixpoint over the resolved call graph + busy-path protocol of the manager',
+             'Decides that a busy BEGIN either loops (retry) or releases the caller\'s new file and raises Timeout with '
+             'nothing else executed (T4, F3 timeout exit); retry is forwarded to every transaction entry and callee '
+             '(R1 - cull->expire violated, known finding); no FanoutCache/DjangoCache/Deque/Index/recipe data operation '
+             'lets Timeout escape and the sharded failure values are False/None/default (R2); operator forms and Django '
+             'writes wait (R3); read-only operations never take the lock (R4); bulk removals carry their count (E4).',
+             '"Waits and then succeeds" timing is not decided.'),
+    'C15': P([('L3', r'Lock|RLock|BoundedSemaphore'), 'L4', 'O0', 'O1', 'O2', 'O3',
+              ('L2', r'Cache\.(add|__delitem__)/')],
+             'transaction-block containment of each read-modify-write + order abstraction on the counters',
+             'Decides that Lock spins on the atomic add and leaves only on success; RLock and BoundedSemaphore read, '
+             'decide and write inside one retrying block (L3); nothing sleeps while the lock is held (L4); the '
+             'semaphore proceeds only for value > 0 and releases only below the initial value (O0); the RLock owner '
+             'identity is pid+tid on both sides and release asserts ownership (O1, O2); context-manager forms and '
+             'barrier use acquire/release (O3); add/delete underneath are atomic (L2).',
+             'Mutual exclusion over all interleavings follows from these only under A2; it is not model-checked here.'),
+    'C16': P(['M1', 'M2', 'M3', ('S6', r'memoize')],
+             'concatenation-grammar reading of the key builder + wrapper dataflow (same key looked up and stored)',
+             'Decides that the key builder separates positional from keyword segments by a delimiter no argument value '
+             'can equal (M1 - violated: the delimiter is None, known finding); typed/ignore are applied to every kept '
+             'value (M2); each wrapper looks up with the ENOVAL sentinel, calls through with the same arguments once, '
+             'returns the cached value or this call\'s result, stores under the same key, and stores nothing for a '
+             'zero expiry (M3); Index/Fanout memoize delegate correctly (S6).',
+             'Results of arbitrary user functions are not decided.'),
+    'C17': P(['H1', 'H2', 'H3', 'H4', ('S4', r'check'), ('S6', r'FanoutCache\.check')],
+             'guard dominance over enumerated paths of check()',
+             'Decides that every write/removal/VACUUM in check() is dominated by `fix` (H1); every repair is preceded '
+             'by a warning issued under the same condition and no warning depends on fix (H2); directory pruning reaches '
+             'a fixpoint in one pass (H3 - violated, known finding); all comparisons run in one transaction (H4); '
+             'FanoutCache.check covers every shard (S4, S6).',
+             'Convergence for arbitrary damage combinations beyond these structural conditions is not decided.'),
+    'C18': P(['P1', 'P2', 'P3', 'P4', 'L6'],
+             'constant folding of the on-disk format against a pinned reference + state-tuple/constructor agreement',
+             'Decides that pickled state matches the constructor for Cache/FanoutCache/Deque/Index (P1); settings are '
+             'layered defaults < stored < arguments and counters inserted with OR IGNORE (P2); every on-disk format fact '
+             '(file names, modes, schema, shard directories, queue keys, hash recipe, key pickling, codecs) equals the '
+             'released 5.6.3 reference (P3); a tested parameter is used (P4); connections are per thread and re-opened '
+             'after fork/close (L6).',
+             'Byte-level readability of pickles across Python versions is not decided.'),
+    'C19': P(['D1', 'D2', 'D3', ('S6', r'djangocache'), ('R2', r'DjangoCache'), 'R3'],
+             'key/timeout dataflow through the adapter + abstract evaluation of get_backend_timeout on 5 input classes',
+             'Does NOT decide the full backend contract over histories. Decides: every key goes downstream as '
+             'make_key(key, version=version) (D1); every timeout goes through get_backend_timeout, which maps the '
+             'default marker, None and 0 correctly (D2); incr raises ValueError for a missing key, decr negates (D3); '
+             'arguments are passed in the right positions (S6); no data method lets Timeout escape (R2, R3).',
+             'The Django contract over call histories (versions x timeouts under a clock) needs execution.'),
+    'C20': P([('L3', r'Averager|throttle'), 'L4', 'O4'],
+             'transaction-block containment + branch-shape check of the token bucket',
+             'Does NOT decide the numeric rate bound. Decides: Averager.add reads and writes inside one retrying block '
+             'and pop is one atomic pop (L3); the throttle spends exactly one token inside the block or computes a '
+             'delay, is capped at count, refills by elapsed*rate, and sleeps outside the block (O4, L4).',
+             'The numeric rate bound and fairness are arithmetic over time and are not decided.'),
 }
 
 PROPS = {}
@@ -63,7 +188,7 @@ for _pid, _spec in _ALL.items():
 def missing_rules():
     out = {}
     for pid, spec in PROPS.items():
-        m = [r for r in spec['rules'] if r not in RULES]
+        m = [r for r in spec['rules'] if (r if isinstance(r, str) else r[0]) not in RULES]
         if m:
             out[pid] = m
     return out
